@@ -317,7 +317,7 @@ def emit(prop, tier, seed, t0, runs, extra_findings=(), level="model_checking", 
 
 PROP_MODELS = {
     "C01": ["framing", "cache", "liveness"], "C02": ["framing"], "C03": ["framing"], "C04": ["decode", "cache"], "C05": ["decode", "cache"],
-    "C06": ["cache"], "C07": ["cache"], "C08": ["framing"], "C09": ["decode", "cache"], "C10": ["decode", "cache"],
+    "C06": ["cache"], "C07": ["cache"], "C08": ["framing"], "C09": ["decode", "cache", "framing"], "C10": ["decode", "cache", "framing"],
     "C11": ["framing", "cache"], "C12": ["framing", "cache"], "C13": ["decode"], "C14": ["framing", "cache"],
 }
 
